@@ -144,6 +144,69 @@ Theorem C14_construction_passes_erase_check : forall frontier children c c',
 Proof. exact into_ssa_passes_erase_check. Qed.
 Print Assumptions C14_construction_passes_erase_check.
 
+(* ---- every read of a local gets a version; every version is listed by a Declaration statement
+   (proof round 4; Proofs.SsaUnvConstruction).  The validator condition SsaCheck.unversioned_reads_ok
+   (third audit; meaning: Proofs.SsaUnversioned.unversioned_reads_ok_spec) is evaluated by the check on
+   every real SSA graph; here it is proved of the construction mirror, for ALL frontier tables, children
+   tables and graphs.  The mirror leaves the declaration table of its output empty, so the statement
+   is over SsaDecls.with_stmt_decls c' - the table rebuilt from the re-issued Declaration statements,
+   which is how the real update_declarations builds the table of the SSA graph.  Hypotheses (decidable,
+   on the graph BEFORE the conversion):
+     children_cover            the tree walk reaches every block (children_coverb, evaluated per definition)
+     parameters are locals     third conjunct of pre_ssa_ok (evaluated per definition)
+     decl_stmts_declared c     (Model.SsaDecls) a Declaration statement of a local names a local of the
+                               table c_decls c - IR lifting adds the table entry when it appends the statement
+     locals_have_decl_stmt c   (Model.SsaDecls) a local of the table is a parameter or has a Declaration
+                               statement in some block
+     phi_free, decls_ok        conjuncts of pre_ssa_ok;   stmt_unvb  conjunct of ssa_dyn_pre_ok
+   Each hypothesis is needed: Proofs.SsaUnvConstruction.Needed has a graph per dropped hypothesis. ---- *)
+Require Import Model.SsaDecls Proofs.SsaUnvConstruction.
+
+(* in the output, a name that a statement reads without a version - in an expression, an array index,
+   an access list, a logged expression, a dimension of a Declaration statement - is not a local of the
+   declaration table of the input: every read of a local has been given a version (on a path where the
+   local is not yet assigned the mirror answers SErrUndefined, not SOk) *)
+Theorem C14_construction_reads_of_locals_versioned : forall frontier children c c' b s v,
+  children_cover children (length (c_blocks c)) ->
+  into_ssa frontier children c = SOk c' ->
+  In b (c_blocks c') -> In s (b_stmts b) -> In v (stmt_reads s) -> vn_version v = None ->
+  is_local_in (c_decls c) v = false.
+Proof. exact into_ssa_unversioned_reads_nonlocal. Qed.
+Print Assumptions C14_construction_reads_of_locals_versioned.
+
+(* the validator condition, over the table rebuilt from the re-issued Declaration statements: no statement
+   reads, without a version, a name whose key is the key of a parameter or of a versioned name that a
+   Declaration statement of a local lists (signals and components stay unversioned by design: their
+   Declaration statements are not of type Local) *)
+Theorem C14_construction_unversioned_reads_ok : forall frontier children c c',
+  children_cover children (length (c_blocks c)) ->
+  forallb (is_local_in (c_decls c)) (c_params c) = true ->
+  decl_stmts_declared c = true ->
+  into_ssa frontier children c = SOk c' -> unversioned_reads_ok (with_stmt_decls c') = true.
+Proof. exact into_ssa_unversioned_reads_ok. Qed.
+Print Assumptions C14_construction_unversioned_reads_ok.
+
+(* the same condition on the mirror's output as it stands (empty table: it speaks about the parameters) *)
+Theorem C14_construction_unversioned_reads_ok_parameters : forall frontier children c c',
+  children_cover children (length (c_blocks c)) ->
+  forallb (is_local_in (c_decls c)) (c_params c) = true ->
+  into_ssa frontier children c = SOk c' -> unversioned_reads_ok c' = true.
+Proof. exact into_ssa_unversioned_reads_ok_bare. Qed.
+Print Assumptions C14_construction_unversioned_reads_ok_parameters.
+
+(* every versioned name that occurs in the output - parameter, read, assignment target, phi argument,
+   declared name - is listed by a Declaration statement of the output or is a version of a parameter
+   (SsaDecls.versions_stmt_declared; meaning: Proofs.SsaUnvConstruction.versions_stmt_declared_spec):
+   update_decl_stmt re-issues each Declaration statement of a local with ALL versions 0..counter of its key,
+   and no version above the counter of its key is ever handed out *)
+Theorem C14_construction_versions_stmt_declared : forall frontier children c c',
+  phi_free c = true -> decls_ok c = true ->
+  forallb (fun b => forallb stmt_unvb (b_stmts b)) (c_blocks c) = true ->
+  locals_have_decl_stmt c = true ->
+  into_ssa frontier children c = SOk c' -> versions_stmt_declared c' = true.
+Proof. exact into_ssa_versions_stmt_declared. Qed.
+Print Assumptions C14_construction_versions_stmt_declared.
+
 (* Cytron et al.'s theorem for this construction: the output satisfies the DYNAMIC statement
    of C14 on EVERY path from the entry (no bound on length or loop unrolling): every read names
    the version most recently assigned on that path, every phi finds the arriving version
@@ -249,13 +312,7 @@ Definition loop_pre : cfg :=
             b_preds := [1%N]; b_succs := [] |} ] |}.
 Definition loop_frontier : list (list N) := [[]; [1%N]; []].
 Definition loop_children : list (list N) := [[1%N]; [2%N]; []].
-Definition with_stmt_decls (c : cfg) : cfg :=
-  {| c_kind := c_kind c; c_params := c_params c;
-     c_decls := flat_map (fun b => flat_map (fun s => match s with
-                                                      | SDecl _ names t _ => map (fun x => (x, t)) names
-                                                      | _ => []
-                                                      end) (b_stmts b)) (c_blocks c);
-     c_blocks := c_blocks c |}.
+(* with_stmt_decls: Model.SsaDecls (the table rebuilt from the Declaration statements) *)
 Example C14_construction_hypotheses_satisfiable :
   pre_ssa_ok loop_pre = true /\ unversioned loop_pre /\
   children_cover loop_children (length (c_blocks loop_pre)).
@@ -309,3 +366,53 @@ Proof.
   destruct (into_ssa loop_frontier loop_children loop_pre) as [c'| | |] eqn:E; try (vm_compute in E; discriminate E).
   exists c'. split; [reflexivity|]. exact (C14_construction_paths_ok _ _ _ _ H1 H2 H3 H4 H5 E).
 Qed.
+
+(* ---- proof round 4: a template-like graph with a parameter p, locals n (reassigned under an if), q (never
+   assigned), an array t whose dimensions read n and p AFTER the join (so they must name the phi versions),
+   a signal s read in an access list and in a dimension; the hypotheses of the four theorems hold for it,
+   the conversion succeeds and both conditions hold of the output ---- *)
+Definition uv (ch : N) : vname := {| vn_name := [ch]; vn_suffix := None; vn_version := None |}.
+Definition dims_pre : cfg :=
+  {| c_kind := KFunction; c_params := [uv 112];
+     c_decls := [(uv 112, TLocal); (uv 110, TLocal); (uv 115, TSigInt); (uv 116, TLocal); (uv 113, TLocal)];
+     c_blocks :=
+       [ {| b_index := 0%N; b_depth := 0%N;
+            b_stmts := [ SDecl m0 [uv 110] TLocal [];
+                         SSubst m0 (uv 110) OpVar (EInfix IAdd (ENum 2 k0) (EVar (uv 112) k0) k0) None (Some TLocal);
+                         SDecl m0 [uv 115] TSigInt [EVar (uv 110) k0];
+                         SDecl m0 [uv 113] TLocal [];
+                         SIf m0 (EVar (uv 110) k0) 1%N (Some 2%N) ];
+            b_preds := []; b_succs := [1%N; 2%N] |};
+         {| b_index := 1%N; b_depth := 1%N;
+            b_stmts := [ SSubst m0 (uv 110) OpVar (EInfix IAdd (EVar (uv 110) k0) (ENum 1 k0) k0) None (Some TLocal);
+                         SSubst m0 (uv 112) OpVar (EInfix IAdd (EVar (uv 112) k0) (ENum 1 k0) k0) None (Some TLocal) ];
+            b_preds := [0%N]; b_succs := [2%N] |};
+         {| b_index := 2%N; b_depth := 0%N;
+            b_stmts := [ SDecl m0 [uv 116] TLocal [EVar (uv 110) k0; EVar (uv 112) k0];
+                         SSubst m0 (uv 116) OpVar (EUpdate (uv 116) [AIdx (EVar (uv 110) k0)] (EVar (uv 115) k0) k0) None (Some TLocal);
+                         SSubst m0 (uv 115) OpSig (EAccess (uv 116) [AIdx (EVar (uv 110) k0); AIdx (EAccess (uv 115) [AIdx (EVar (uv 112) k0)] k0)] k0)
+                                None (Some TSigInt);
+                         SRet m0 (EVar (uv 116) k0) ];
+            b_preds := [0%N; 1%N]; b_succs := [] |} ] |}.
+Definition dims_frontier : list (list N) := [[]; [2%N]; []].
+Definition dims_children : list (list N) := [[1%N; 2%N]; []; []].
+Example C14_construction_declaration_hypotheses_satisfiable :
+  children_cover dims_children (length (c_blocks dims_pre)) /\
+  pre_ssa_ok dims_pre = true /\ ssa_dyn_pre_ok dims_pre = true /\
+  forallb (fun b => forallb stmt_unvb (b_stmts b)) (c_blocks dims_pre) = true /\
+  decl_stmts_declared dims_pre = true /\ locals_have_decl_stmt dims_pre = true.
+Proof. split; [apply children_coverb_spec|]; vm_compute; repeat split; reflexivity. Qed.
+Example C14_construction_declaration_example :
+  exists c', into_ssa dims_frontier dims_children dims_pre = SOk c' /\
+    map (fun b => length (b_stmts b)) (c_blocks c') = [5; 2; 6]%nat /\
+    unversioned_reads_ok (with_stmt_decls c') = true /\ versions_stmt_declared c' = true /\
+    length (stmt_decl_names c') = 7%nat.
+Proof. vm_compute. eexists. repeat split. Qed.
+(* the conditions are not vacuous: a graph that reads the local n without a version in a dimension, and a
+   graph that assigns a version no Declaration statement lists, are rejected *)
+Example C14_declaration_conditions_reject :
+  unversioned_reads_ok (with_stmt_decls (set_blocks (loop_graph 1)
+     [ {| b_index := 0%N; b_depth := 0%N; b_stmts := [SDecl m0 [xv 0; xv 1; xv 2] TLocal [EVar xu k0]]; b_preds := []; b_succs := [] |} ])) = false /\
+  versions_stmt_declared (set_blocks (loop_graph 1)
+     [ {| b_index := 0%N; b_depth := 0%N; b_stmts := [SSubst m0 {| vn_name := [121%N]; vn_suffix := None; vn_version := Some 3%N |} OpVar (ENum 0 k0) None (Some TLocal)]; b_preds := []; b_succs := [] |} ]) = false.
+Proof. vm_compute. split; reflexivity. Qed.
